@@ -28,7 +28,7 @@
 (***************************************************************************)
 EXTENDS Integers, Sequences, FiniteSets, TLC
 
-CONSTANTS Mode,      \* "flat" | "nest" | "rand" | "none" (trace validation: scenarios come from the trace)
+CONSTANTS Mode,      \* "flat" | "nest" | "rec" | "rand" | "none" (trace validation: scenarios come from the trace)
           Alpha,     \* flat: "probe" | "builtin"
           Tier,      \* flat: "quick" | "thorough" (size of the exhaustive windows)
           NSample,   \* rand: number of sampled scenarios
@@ -370,6 +370,11 @@ FlatScenarios ==
          FlatWin(1, K1, 3) \cup FlatWin(2, Mixed2 \cup Same2, 1) \cup FlatWin(3, {<<"int", "str", "int">>}, 1)
 
 (* ---- nested windows ---- *)
+\* the rule that marks a reached object (always violated on a non-zero value) and its satisfied companion: per-call probe
+\* functions, or - Alpha = "builtin" - built-in rules, so that the call needs no function and no rule set of its own
+\* (N holds 1..4: below 5; M holds 0 or 1: at most 2)
+BadRule == IF Alpha = "builtin" THEN Rule("ge", 5, 0, "") ELSE R0("p_bad")
+OkRule == IF Alpha = "builtin" THEN Rule("le", 0, 2, "") ELSE R0("p_ok")
 ContKinds == {"value", "ptr", "ptrptr", "slice", "sliceptr", "array", "arrayptr", "map", "mapptr"}
 Markers == {"none", "required", "exist", "other", "mixed"}
 Flavors == {"plain", "unexp", "emb"}
@@ -412,7 +417,7 @@ ChildName(fl, j, d) == CASE fl = "emb" -> "T" \o ToString(d + 1)
                          [] OTHER -> "C" \o ToString(j)
 LevelType(d, childs, tm) ==   \* childs: Seq([kind, marker, flavor]); tm: has a time.Time field
   [name |-> "T" \o ToString(d),
-   fields |-> <<Fld("N", TRUE, FALSE, IntT, <<R0("p_bad")>>), Fld("M", TRUE, FALSE, IntT, <<R0("p_ok")>>)>>
+   fields |-> <<Fld("N", TRUE, FALSE, IntT, <<BadRule>>), Fld("M", TRUE, FALSE, IntT, <<OkRule>>)>>
               \o (IF tm THEN <<Fld("W", TRUE, FALSE, TimeT, <<R0("required")>>)>> ELSE <<>>)
               \o [j \in 1..Len(childs) |->
                     Fld(ChildName(childs[j].flavor, j, d), childs[j].flavor # "unexp", childs[j].flavor = "emb",
@@ -489,7 +494,52 @@ ProdOrders(vs) == IF Len(vs) = 0 THEN 1 ELSE Orders(vs[1]) * ProdOrders(Tail(vs)
 Orders(v) == (IF v.k = "map" THEN Fact(Len(v.kids)) ELSE 1) * ProdOrders(v.kids)
 RandScenarios == {s \in {RandScn(i) : i \in 1..NSample} : ~Ambiguous(s) /\ Orders(s.root) <= 24}
 
+(* ---- recursive types: T1 -> T2 -> T1 -> ... and the self-recursive T1 -> T1.  The type graph has a cycle, the VALUES are
+   finite chains (the last link is nil / a nil slice / a nil map), so the object graph stays acyclic as C04 demands.
+   Every level holds the violated probe N and the satisfied probe M in front of or behind its link field; the type on
+   the way back (T2) comes with or without probes of its own. *)
+RecKinds == {"ptr", "slice", "sliceptr", "mapptr"}
+RecType(d, other, kind, marker, linkFirst, probes) ==
+  LET link == <<Fld("C1", TRUE, FALSE, Wrap(kind, StructT(other)), MarkRules(marker))>>
+      ps == IF probes THEN <<Fld("N", TRUE, FALSE, IntT, <<BadRule>>), Fld("M", TRUE, FALSE, IntT, <<OkRule>>)>> ELSE <<>>
+  IN [name |-> "T" \o ToString(d), fields |-> IF linkFirst THEN link \o ps ELSE ps \o link]
+RecLink(kind, v, lead) ==          \* the link field holding v (lead: a nil element in front, where the kind has elements)
+  CASE kind = "ptr" -> PtrTo(v)
+    [] kind = "slice" -> Sl(FALSE, <<v>>)
+    [] kind = "sliceptr" -> Sl(FALSE, IF lead THEN <<NilPtr, PtrTo(v)>> ELSE <<PtrTo(v)>>)
+    [] kind = "mapptr" -> Mp(FALSE, <<PtrTo(v)>>)
+RecEnd(kind) == CASE kind = "ptr" -> NilPtr [] kind \in {"slice", "sliceptr"} -> Sl(TRUE, <<>>) [] OTHER -> Mp(TRUE, <<>>)
+RecStruct(types, d, nm, link) ==
+  Val("struct", FALSE, d, [i \in 1..Len(types[d].fields) |->
+                             LET f == types[d].fields[i] IN
+                             IF f.name = "N" THEN IntV(nm[1]) ELSE IF f.name = "M" THEN IntV(nm[2]) ELSE link])
+\* a chain of `depth` objects starting with type d; kinds[t] = link kind of type t; nms = (N, M) per level
+RECURSIVE RecChain(_, _, _, _, _, _)
+RecChain(types, d, kinds, depth, nms, lead) ==
+  LET next == IF Len(types) = 1 THEN 1 ELSE 3 - d IN
+  RecStruct(types, d, nms[1],
+            IF depth = 1 THEN RecEnd(kinds[d])
+            ELSE RecLink(kinds[d], RecChain(types, next, kinds, depth - 1, Tail(nms), lead), lead))
+\* (N, M) per level: every level violated, or alternating (so that a level that was skipped, or visited twice, shows)
+NMSeqs == {<<(<<1, 0>>), (<<1, 0>>), (<<1, 0>>), (<<1, 0>>)>>, <<(<<1, 0>>), (<<0, 1>>), (<<1, 0>>), (<<0, 1>>)>>,
+           <<(<<0, 1>>), (<<1, 0>>), (<<0, 1>>), (<<1, 0>>)>>}
+RecScn(types, root) == [styles |-> <<"struct">>, types |-> types, rootTy |-> StructT(1), root |-> root]
+RecMutual ==
+  UNION {
+    {RecScn(<<RecType(1, 2, k1, m1, lf, TRUE), RecType(2, 1, k2, m2, lf2, pb)>>,
+            RecChain(<<RecType(1, 2, k1, m1, lf, TRUE), RecType(2, 1, k2, m2, lf2, pb)>>, 1, <<k1, k2>>, depth, nms, lead))
+       : depth \in 2..4, nms \in NMSeqs, lead \in BOOLEAN}
+    : k1 \in RecKinds, k2 \in RecKinds, m1 \in {"required", "exist"}, m2 \in {"required", "exist"},
+      lf \in BOOLEAN, lf2 \in BOOLEAN, pb \in BOOLEAN}
+RecSelf ==
+  UNION {
+    {RecScn(<<RecType(1, 1, k1, m1, lf, TRUE)>>, RecChain(<<RecType(1, 1, k1, m1, lf, TRUE)>>, 1, <<k1>>, depth, nms, lead))
+       : depth \in 1..4, nms \in NMSeqs, lead \in BOOLEAN}
+    : k1 \in RecKinds, m1 \in {"required", "exist"}, lf \in BOOLEAN}
+RecScenarios == {s \in RecMutual \cup RecSelf : ~Ambiguous(s)}
+
 Scenarios == CASE Mode = "flat" -> FlatScenarios
+               [] Mode = "rec" -> RecScenarios
                [] Mode = "nest" -> NestScenarios
                [] Mode = "rand" -> RandScenarios
                [] OTHER -> {}
